@@ -4,6 +4,7 @@
    extracted model's prediction (stack_req / stack_res) with it. *)
 
 let self_tag = chars_of_string "martian-SELF"
+let cur_self = ref self_tag   (* pseudonym of the instance a DIR-style observation came from *)
 
 let after (p : int) (t : string) = String.sub t p (String.length t - p)
 let starts (p : string) (t : string) =
@@ -63,7 +64,7 @@ let judge _name ins outs =
         else if starts "I" t then i := (after 1 t = "1")
         else if starts "N" t then n := int_of_string (after 1 t)
         else failwith ("bad OUT token " ^ t)) outs;
-    let env = { e_self = self_tag; e_proto = !proto; e_client = !tc; e_scheme = !ts; e_host = !th; e_url = !tu } in
+    let env = { e_self = !cur_self; e_proto = !proto; e_client = !tc; e_scheme = !ts; e_host = !th; e_url = !tu } in
     let hin = of_lines qs in
     let oerr = match !e with "n" -> None | "f" -> Some EFraming | "l" -> Some ELoop
                            | x -> failwith ("unexpected error class " ^ x) in
@@ -163,9 +164,64 @@ let judge_con name ins outs =
       !res
     end
 
+(* IDS: pseudonyms of fresh instances are well formed and pairwise distinct.
+   CHN: one request through distinct same-name instances; hop k is judged as a
+   DIR case whose input is what hop k-1 was OBSERVED to send and whose
+   "this instance" is martian-INST<hops[k]> (theorems
+   C14_chain_of_distinct_instances_no_false_loop_one_entry_per_hop,
+   C14_loop_through_other_instances_is_refused follow from the per-hop clauses). *)
+let judge_ids outs =
+  match outs with
+  | [n; wf; d] when starts "n" n && starts "wf" wf && starts "distinct" d ->
+      let n = after 1 n and wf = after 2 wf and d = after 8 d in
+      if n = wf && n = d then VOk true
+      else VPropfail ("instance_identity_distinct",
+                      Printf.sprintf "instances=%s_wellformed_pseudonyms=%s_distinct_pseudonyms=%s" n wf d)
+  | _ -> VDisagree "bad-IDS-output"
+
+let judge_chain name ins outs =
+  match outs with
+  | ["BADURL"] -> VOk false
+  | [] | ["BADCASE"] -> VDisagree "bad-case"
+  | t :: _ when starts "IOERR" t -> VDisagree ("environment:" ^ t)
+  | _ ->
+    let envin = List.filter (fun t -> not (starts "q:" t) && not (starts "hops=" t)) (List.tl ins) in
+    let q0 = List.filter (starts "q:") ins in
+    let hops = List.map int_of_string
+        (String.split_on_char '.' (after 5 (List.find (starts "hops=") ins))) in
+    let (pre, groups) = split_by ["HOP"] outs in
+    let table = List.filter (fun t -> t <> "IDOK" && t <> "IDBAD") pre in
+    if List.mem "IDBAD" pre then
+      VPropfail ("instance_identity_distinct", "instances-of-one-chain-share-a-pseudonym-or-it-is-malformed")
+    else begin
+      let res = ref (VOk (List.length hops >= 2)) in
+      let q = ref q0 and stopped = ref false and k = ref 0 in
+      List.iter (fun (_, o) ->
+          (match !res with
+           | VOk _ when !stopped -> res := VDisagree "hop-after-error"
+           | VOk _ ->
+               let inst = List.nth hops !k in
+               cur_self := chars_of_string (Printf.sprintf "martian-INST%d" inst);
+               (* the response half of oneDirect ran on an empty 200 response *)
+               (match judge name (("DIR" :: envin) @ !q @ ["st200"]) (table @ o) with
+                | VOk _ -> ()
+                | VPropfail (c, d) -> res := VPropfail (c, Printf.sprintf "chain_hop=%d_instance=%d_%s" !k inst d)
+                | VDisagree d -> res := VDisagree (Printf.sprintf "chain_hop=%d_instance=%d_%s" !k inst d));
+               cur_self := self_tag;
+               if not (List.mem "En" o) then stopped := true;
+               q := List.filter_map (fun t -> if starts "h:" t then Some ("q:" ^ after 2 t) else None) o;
+               incr k
+           | _ -> ())) groups;
+      (match !res with
+       | VOk _ when not !stopped && !k <> List.length hops -> VDisagree "chain-ended-without-error"
+       | v -> v)
+    end
+
 let judge name ins outs =
   match ins with
   | "CON" :: _ -> judge_con name ins outs
+  | "IDS" :: _ -> judge_ids outs
+  | "CHN" :: _ -> judge_chain name ins outs
   | _ -> judge name ins outs
 
 (* bin/vcheck resolves the inputs of only the first 2000 bad cases; when one
